@@ -228,3 +228,43 @@ def attr_chain(node):
       return list(reversed(parts))
     else:
       return None
+
+
+def E(text):
+  """The expression `text` as the rules see repository code (comparisons oriented
+  as by loader.orient_comparisons)."""
+  from .loader import orient_comparisons
+  return orient_comparisons(ast.parse(text, mode='eval')).body
+
+
+def T(text):
+  """Normalised text of expression `text` in the loader's orientation."""
+  from .loader import norm_text
+  return norm_text(E(text))
+
+
+def eq_sides(node, pred_a, pred_b=None, ops=(ast.Eq,)):
+  """For a two-operand (in)equality, the operands as (a, b) with pred_a(a) (and
+  pred_b(b)) whichever way round they are written; None if node is not one."""
+  if not (isinstance(node, ast.Compare) and len(node.ops) == 1 and isinstance(node.ops[0], tuple(ops))):
+    return None
+  l, r = node.left, node.comparators[0]
+  for a, b in ((l, r), (r, l)):
+    try:
+      if pred_a(a) and (pred_b is None or pred_b(b)):
+        return (a, b)
+    except Exception:
+      pass
+  return None
+
+
+def blocks(fnode):
+  """Every statement list (body, orelse, finalbody, handler body) under a function node."""
+  yield fnode.body
+  for st in walk_stmts(fnode):
+    for field in ('body', 'orelse', 'finalbody'):
+      v = getattr(st, field, None)
+      if isinstance(v, list) and v and isinstance(v[0], ast.stmt):
+        yield v
+    for h in getattr(st, 'handlers', []) or []:
+      yield h.body
